@@ -145,7 +145,7 @@ func (s1 jsonSet) diff(n JsonNode, path path, metadata []Metadata, strategy patc
 			o2, isObject2 := n2.(jsonObject)
 			if isObject1 && isObject2 {
 				// Sub diff objects with same identity.
-				p := path.appendIndex(o1, metadata)
+				p := path.appendIndex(o1.pathObject(metadata), metadata)
 				subDiff := o1.diff(o2, p, metadata, strategy)
 				d = append(d, subDiff...)
 			}
